@@ -672,7 +672,7 @@ func sub128(a [2]uint64, d uint64) [2]uint64 {
 // session table holds exactly the live sessions, the election state is the model's.
 func (sr *sessRun) afterStep(st *Step) {
 	e := sr.e
-	live := 0
+	live, spoken := 0, 0
 	var ks []int
 	for k := range sr.ms {
 		ks = append(ks, k)
@@ -684,6 +684,9 @@ func (sr *sessRun) afterStep(st *Step) {
 			continue
 		}
 		live++
+		if m.gotMsg {
+			spoken++
+		}
 		if k == st.Sess {
 			continue
 		}
@@ -692,12 +695,17 @@ func (sr *sessRun) afterStep(st *Step) {
 			e.report("C09", "bystander-terminated", "another session's RPC ended", fmt.Sprintf("after step %d (%s on session %d) session %d ended: %v", e.step, st.T, st.Sess, k, s.mc.Stream().Result()), false)
 			m.alive = false
 			live--
+			if m.gotMsg {
+				spoken--
+			}
 		} else if s.mc.Stream().QueuedToClient() > 0 {
 			e.report("C09", "bystander-message", "another session received a message", fmt.Sprintf("after step %d (%s on session %d) session %d has %d unsolicited responses", e.step, st.T, st.Sess, k, s.mc.Stream().QueuedToClient()), false)
 		}
 	}
-	if got := len(e.srv.VerifSessions()); got != live {
-		e.report("C09", "session-footprint", "session table size differs from the number of live sessions", fmt.Sprintf("after step %d (%s on session %d): server tracks %d sessions, %d are live", e.step, st.T, st.Sess, got, live), false)
+	// (sessions that are gone leave nothing behind; whether a stream that is connected but has said nothing has
+	// an entry of its own yet is the server's business)
+	if got := len(e.srv.VerifSessions()); got > live || got < spoken {
+		e.report("C09", "session-footprint", "session table size differs from the number of live sessions", fmt.Sprintf("after step %d (%s on session %d): server tracks %d sessions, %d are live (%d of them have sent something)", e.step, st.T, st.Sess, got, live, spoken), false)
 	}
 	id, master := e.srv.VerifElection()
 	switch {
